@@ -10,6 +10,7 @@ import (
 	"fmt"
 	"os"
 	"os/signal"
+	"strings"
 	"syscall"
 	"testing"
 	"testing/synctest"
@@ -100,6 +101,9 @@ func newSimRun(prop string, tape *simrt.Tape, keep bool) *simRun {
 }
 
 func (r *simRun) fail(class string, tags map[string]string, format string, args ...any) {
+	if !strings.HasPrefix(class, r.prop+".") {
+		return // a clause of another property: decided by that property's own check
+	}
 	if r.viol == nil {
 		r.viol = &simrt.Violation{Prop: r.prop, Class: class, Msg: fmt.Sprintf(format, args...), Tags: tags}
 		r.log.Addf("VIOLATION %s %s", class, r.viol.Msg)
